@@ -1,0 +1,128 @@
+// SPDX-FileCopyrightText: 2026 The Pion community <https://pion.ly>
+// SPDX-License-Identifier: MIT
+
+//go:build verif
+
+package sctp
+
+// Panic-freedom sweep (C03): every decoder reachable from packet.unmarshal carries the implicit
+// safety obligations (index and slice bounds, nil dereference, division by zero, type assertions,
+// explicit panics) for all byte strings of all lengths. Functional clauses are added where stated.
+
+//@ func chunkAbort.unmarshal
+//@   loop 1 invariant#offset offset >= 0 && offset <= len(a.raw)
+//@   at call buildErrorCause assert#own-bytes-only{C12} offset+4 <= len(a.raw) && sameSlice(arg0, a.raw[offset:])
+//@   tags C03 C12
+//@   safety C03
+//@ func chunkCookieAck.unmarshal
+//@   safety C03
+//@ func chunkCookieEcho.unmarshal
+//@   safety C03
+//@ func chunkError.unmarshal
+//@   loop 1 invariant#offset offset >= 0 && offset <= len(a.raw)
+//@   at call buildErrorCause assert#own-bytes-only{C12} offset+4 <= len(a.raw) && sameSlice(arg0, a.raw[offset:])
+//@   tags C03 C12
+//@   safety C03
+//@ func chunkForwardTSN.unmarshal
+//@   loop 1 invariant#offset offset >= 4 && remaining >= 0 && offset+remaining == len(c.raw)
+//@   loop 1 decreases remaining
+//@   tags C03
+//@   safety C03
+//@ func chunkForwardTSNStream.unmarshal
+//@   safety C03
+//@ func chunkHeartbeat.unmarshal
+//@   safety C03
+//@ func chunkHeartbeatAck.unmarshal
+//@   safety C03
+//@ func chunkIForwardTSN.unmarshal
+//@   loop 1 invariant#idx i >= 0 && i < streamCount && streamCount*8 == len(c.raw)-4 && streamCount <= 8190 && len(streams) <= i && cap(streams) >= 0
+//@   tags C03
+//@   safety C03
+//@ func chunkIForwardTSNStream.unmarshal
+//@   safety C03
+//@ func chunkInit.unmarshal
+//@   safety C03
+//@ func chunkInitAck.unmarshal
+//@   safety C03
+//@ func chunkInitCommon.unmarshal
+//@   requires#len len(raw) >= 16
+//@   loop 1 invariant#offset offset >= 16 && offset+remaining == len(raw)
+//@   tags C03
+//@   safety C03
+//@ func chunkReconfig.unmarshal
+//@   safety C03
+//@ func chunkSelectiveAck.unmarshal
+//@   loop 1 invariant#blocks offset == 12+4*rangeIdx && rangeIdx <= len(s.gapAckBlocks) && len(s.raw) == 12+4*len(s.gapAckBlocks)+4*len(s.duplicateTSN) && len(s.gapAckBlocks) <= 65535 && len(s.duplicateTSN) <= 65535
+//@   loop 2 invariant#dups offset == 12+4*len(s.gapAckBlocks)+4*rangeIdx && rangeIdx <= len(s.duplicateTSN) && len(s.raw) == 12+4*len(s.gapAckBlocks)+4*len(s.duplicateTSN) && len(s.gapAckBlocks) <= 65535 && len(s.duplicateTSN) <= 65535
+//@   tags C03
+//@   safety C03
+//@ func chunkShutdown.unmarshal
+//@   safety C03
+//@ func chunkShutdownAck.unmarshal
+//@   safety C03
+//@ func chunkShutdownComplete.unmarshal
+//@   safety C03
+//@ func errorCauseHeader.unmarshal
+//@   requires#len len(raw) >= 4
+//@   ensures#fields result == nil ==> e.len == specBE16(raw, 2) && e.len >= 4 && int(e.len) <= len(raw) && uint16(e.code) == specBE16(raw, 0) &&
+//@      sameSlice(e.raw, raw[4:int(e.len)])
+//@   modifies e.code, e.len, e.raw
+//@   tags C12 C03
+//@   safety C03
+//@ func errorCauseInvalidMandatoryParameter.unmarshal
+//@   inline
+//@   requires#len len(raw) >= 4
+//@   safety C03
+//@ func errorCauseProtocolViolation.unmarshal
+//@   inline
+//@   requires#len len(raw) >= 4
+//@   safety C03
+//@ func errorCauseUnrecognizedChunkType.unmarshal
+//@   inline
+//@   requires#len len(raw) >= 4
+//@   safety C03
+//@ func errorCauseUserInitiatedAbort.unmarshal
+//@   inline
+//@   requires#len len(raw) >= 4
+//@   safety C03
+//@ func paramChunkList.unmarshal
+//@   safety C03
+//@ func paramECNCapable.unmarshal
+//@   safety C03
+//@ func paramForwardTSNSupported.unmarshal
+//@   safety C03
+//@ func paramHeader.unmarshal
+//@   safety C03
+//@ func paramHeartbeatInfo.unmarshal
+//@   safety C03
+//@ func paramOutgoingResetRequest.unmarshal
+//@   loop 1 invariant#idx i >= 0 && i < lim && lim == (len(r.raw)-12)/2 && len(r.raw) >= 12 && len(r.streamIdentifiers) == lim
+//@   tags C03
+//@   safety C03
+//@ func paramRandom.unmarshal
+//@   safety C03
+//@ func paramReconfigResponse.unmarshal
+//@   safety C03
+//@ func paramRequestedHMACAlgorithm.unmarshal
+//@   loop 1 invariant#even i >= 0 && i%2 == 0 && i <= len(r.raw) && len(r.raw)%2 == 0
+//@   loop 1 decreases len(r.raw) - i
+//@   tags C03
+//@   safety C03
+//@ func paramStateCookie.unmarshal
+//@   safety C03
+//@ func paramSupportedExtensions.unmarshal
+//@   safety C03
+//@ func paramZeroChecksumAcceptable.unmarshal
+//@   safety C03
+//@ func buildParam
+//@   safety C03
+//@ func buildErrorCause
+//@   inline
+//@   requires#len len(raw) >= 4
+//@   safety C03
+//@ func parseParamType
+//@   safety C03
+//@ func checkPacket
+//@   requires#pkt pkt != nil
+//@   tags C03
+//@   safety C03
